@@ -115,16 +115,18 @@ impl FromSpecImpl<WasmMsg> for CosmosMsg {
     open spec fn from_spec(b: WasmMsg) -> CosmosMsg { CosmosMsg::Wasm(b) }
 }
 
+/// `impl Into<CosmosMsg>` arguments
+pub trait IntoCosmos: Sized { spec fn cm(self) -> CosmosMsg; }
+impl IntoCosmos for CosmosMsg { open spec fn cm(self) -> CosmosMsg { self } }
+impl IntoCosmos for BankMsg { open spec fn cm(self) -> CosmosMsg { CosmosMsg::Bank(self) } }
+impl IntoCosmos for WasmMsg { open spec fn cm(self) -> CosmosMsg { CosmosMsg::Wasm(self) } }
 impl SubMsg {
-    pub fn new(msg: CosmosMsg) -> (r: SubMsg) ensures r == (SubMsg { id: 0, msg, reply_on: ReplyOn::Never }) {
-        SubMsg { id: 0, msg, reply_on: ReplyOn::Never }
-    }
-    pub fn reply_on_success(msg: CosmosMsg, id: u64) -> (r: SubMsg) ensures r == (SubMsg { id, msg, reply_on: ReplyOn::Success }) {
-        SubMsg { id, msg, reply_on: ReplyOn::Success }
-    }
-    pub fn reply_on_error(msg: CosmosMsg, id: u64) -> (r: SubMsg) ensures r == (SubMsg { id, msg, reply_on: ReplyOn::Error }) {
-        SubMsg { id, msg, reply_on: ReplyOn::Error }
-    }
+    #[verifier::external_body]
+    pub fn new<M: IntoCosmos>(msg: M) -> (r: SubMsg) ensures r == (SubMsg { id: 0, msg: msg.cm(), reply_on: ReplyOn::Never }) { unimplemented!() }
+    #[verifier::external_body]
+    pub fn reply_on_success<M: IntoCosmos>(msg: M, id: u64) -> (r: SubMsg) ensures r == (SubMsg { id, msg: msg.cm(), reply_on: ReplyOn::Success }) { unimplemented!() }
+    #[verifier::external_body]
+    pub fn reply_on_error<M: IntoCosmos>(msg: M, id: u64) -> (r: SubMsg) ensures r == (SubMsg { id, msg: msg.cm(), reply_on: ReplyOn::Error }) { unimplemented!() }
 }
 
 pub open spec fn plain_submsgs(ms: Seq<CosmosMsg>) -> Seq<SubMsg> {
@@ -144,8 +146,8 @@ impl Response {
     #[verifier::external_body]
     pub fn set_data<D>(self, d: D) -> (r: Response) ensures r.messages@ == self.messages@ { unimplemented!() }
     #[verifier::external_body]
-    pub fn add_message(self, m: CosmosMsg) -> (r: Response)
-        ensures r.messages@ == self.messages@.push(SubMsg { id: 0, msg: m, reply_on: ReplyOn::Never })
+    pub fn add_message<M: IntoCosmos>(self, m: M) -> (r: Response)
+        ensures r.messages@ == self.messages@.push(SubMsg { id: 0, msg: m.cm(), reply_on: ReplyOn::Never })
     { unimplemented!() }
     #[verifier::external_body]
     pub fn add_messages(self, ms: Vec<CosmosMsg>) -> (r: Response)
@@ -156,6 +158,10 @@ impl Response {
     #[verifier::external_body]
     pub fn add_submessages(self, ms: Vec<SubMsg>) -> (r: Response) ensures r.messages@ == self.messages@ + ms@ { unimplemented!() }
 }
+
+/// `Reply` (sub-message reply): id and the Ok/Err outcome (payload text dropped)
+pub struct SubMsgResponse { pub tag: Ghost<int> }
+pub struct Reply { pub id: u64, pub result: Result<SubMsgResponse, Str> }
 
 /// opaque stand-in for `Binary` / serialized payloads
 pub struct Binary { pub tag: Ghost<int> }
